@@ -38,7 +38,7 @@ var hookedKinds = map[string]bool{"err": true, "perr": true, "stderr": true, "se
 	"errstringer": true, "errfmter": true, "err!": true, "perr!": true, "errwrapv": true,
 	// byte-kinded errors (alone and as the elements of a typed slice), named
 	// slice types whose nil value makes Error panic
-	"byteerr": true, "sliceerr": true, "nilsliceerr": true}
+	"byteerr": true, "sliceerr": true, "nilsliceerr": true, "errgostr": true}
 
 type expectedCall struct {
 	kind string
